@@ -335,6 +335,9 @@ def _len(ex, st, args, kwargs, node):
         n = card(S)
         assume_theorem(st, n >= 0)
         assume_theorem(st, (n == 0) == (S == z3.K(v.ty.elem.sort(), z3.BoolVal(False))))
+        # exactly one element iff S is the singleton of its (chosen) element -- links `assert len(S) == 1` to `(x,) = S`
+        only = z3.Function("only_" + T._mangle(v.ty.elem), S.sort(), v.ty.elem.sort())
+        assume_theorem(st, (n == 1) == (S == z3.SetAdd(z3.EmptySet(v.ty.elem.sort()), only(S))))
         src = v.meta[1] if isinstance(v.meta, tuple) and len(v.meta) == 2 and v.meta[0] == "from_seq" else None
         if src is not None:
             i, j = z3.Int(fresh_name("ci")), z3.Int(fresh_name("cj"))
@@ -406,10 +409,19 @@ def sorted_facts(ex, st, src: Val, r, et, key, reverse, node):
         ex.qouter.pop()
     if a.ty == T.BOOL:
         a, b = coerce(a, T.INT), coerce(b, T.INT)
-    if not (T.is_num(a.ty) or a.ty == T.STR or isinstance(a.ty, T.Tuple)):
+    if not (T.is_num(a.ty) or a.ty == T.STR or isinstance(a.ty, T.Tuple) or (isinstance(a.ty, T.List) and (T.is_num(a.ty.elem) or a.ty.elem == T.STR))):
         raise Unsupported(f"sorted(): no order on {a.ty}", node)
     op = (ast.Gt() if strict else ast.GtE()) if reverse else (ast.Lt() if strict else ast.LtE())
     st.assume(z3.ForAll([i, j], z3.Implies(z3.And(0 <= i, i < j, j < n), z3bool(ops.compare(op, a, b, node)))))
+
+
+def _mentions_bound(ex, term) -> bool:
+    """does the term mention a variable bound by an enclosing quantified expression?"""
+    if not ex.qstack:
+        return False
+    from .symex import _mentions
+
+    return _mentions(term, {v.get_id() for vs, _ in ex.qstack for v in vs})
 
 
 @builtin("builtins.sorted", "sorted(c) = the elements of c in increasing order (spec function sorted_T; with sorted_axioms=True: same elements, same length, ordered)")
@@ -422,6 +434,21 @@ def _sorted(ex, st, args, kwargs, node):
     info = carrier_info(v)
     if info is not None:
         meta = getattr(info, "dict_items", None)
+        if meta is not None and meta[2] == "items" and info.kind != "concrete" and key is None and not reverse and not _mentions_bound(ex, meta[1]):
+            # sorted(d.items()): keys are unique, so the pairs are ordered by their keys alone (the values never take part):
+            # the pairs (k, d[k]) for k in sorted(d).  A FUNCTION of d (the same term at every evaluation), tied to the
+            # term of sorted(d) position by position.
+            dt, d, _mode = meta
+            sk = _sorted(ex, st, [Val(dt, d)], {}, node)
+            SK = lift(sk)
+            pt = T.Tuple(dt.k, dt.v)
+            R = z3.Function("sorted_items_" + T._mangle(dt), d.sort(), z3.SeqSort(pt.sort()))(d)
+            if not _once(st, ("sorted_items", d.get_id()), d):
+                i = z3.Int(fresh_name("si"))
+                assume_theorem(st, z3.Length(R) == z3.Length(SK))
+                assume_theorem(st, z3.ForAll([i], z3.Implies(z3.And(i >= 0, i < z3.Length(R)),
+                                                             R[i] == pt.sort().constructor(0)(SK[i], z3.Select(dt.sort().map(d), SK[i]))), patterns=[R[i]]))
+            return Val(T.List(pt), R)
         v = carrier_to_set(ex, st, info, node) if (meta is not None and meta[2] == "keys") else carrier_to_list(ex, st, info, node)
     if v.is_py and isinstance(v.py, (list, tuple)) and v.py:
         items = [x if isinstance(x, Val) else Val.const(x) for x in v.py]
@@ -625,6 +652,37 @@ def _zip(ex, st, args, kwargs, node):
         "indexed", n=n, item=lambda k: Val(PYOBJ, None, tuple(itemof(i, k) for i in infos), True),
         facts=lambda k: [f for i in infos for f in i.facts(k)],
     )
+    return Val(PYOBJ, None, ("iterinfo", new, None), True)
+
+
+@builtin("itertools.product", "product(a, b) = the pairs (x, y), x from a (outer), y from b (inner), in iteration order")
+def _product(ex, st, args, kwargs, node):
+    from .stmts import IterInfo
+
+    if len(args) != 2 or kwargs:
+        raise Unsupported("itertools.product: exactly two iterables, no repeat=", node)
+    ia, ib = [ex.iter_info(a, st, node) for a in args]
+    if ia.kind == "concrete" and ib.kind == "concrete":
+        return Val(PYOBJ, None, [Val(PYOBJ, None, (x, y), True) for x in ia.items for y in ib.items], True)
+    if ia.kind == "set" or ib.kind == "set":
+        raise Unsupported("itertools.product over a set (arbitrary order): iterate sorted(..) / a list", node)
+
+    def nof(i):
+        return z3.IntVal(len(i.items)) if i.kind == "concrete" else i.n
+
+    def itemof(i, k):
+        if i.kind == "concrete":
+            raise Unsupported("itertools.product mixing concrete and symbolic lengths", node)
+        return i.item(k)
+
+    na, nb = nof(ia), nof(ib)
+    # position k of the product is (a[k div nb], b[k mod nb]); the range facts of the quotient / remainder are stated
+    # explicitly (they hold for 0 <= k < na * nb and are non-linear consequences the solvers rarely find)
+    def facts(k):
+        q, r = k / nb, k % nb
+        return [q >= 0, q < na, r >= 0, r < nb, k == q * nb + r] + list(ia.facts(q)) + list(ib.facts(r))
+
+    new = IterInfo("indexed", n=na * nb, item=lambda k: Val(PYOBJ, None, (itemof(ia, k / nb), itemof(ib, k % nb)), True), facts=facts)
     return Val(PYOBJ, None, ("iterinfo", new, None), True)
 
 
